@@ -24,3 +24,11 @@ Theorem C06_reindent_leaves : forall (grp : node -> res node) o stmts s outs,
   exists gs, mapM grp stmts = Ok gs /\ Forall2 (fun g r => sig r = sig g) gs outs.
 Proof. exact reindent_sigleaves. Qed.
 Print Assumptions C06_reindent_leaves.
+
+(* reindent_aligned (exact model): the non-whitespace leaves of every statement are those of the grouped statement *)
+From SqlModel.Filters Require Import Aligned AlignedSpec AlignedFacts.
+Theorem C06_aligned_leaves : forall (grp : node -> res node) stmts outs,
+  arun_stmts grp stmts = Ok outs ->
+  exists gs, mapM grp stmts = Ok gs /\ Forall2 (fun g r => sig r = sig g) gs outs.
+Proof. exact aligned_sigleaves. Qed.
+Print Assumptions C06_aligned_leaves.
